@@ -120,6 +120,7 @@ type Sched struct {
 	Strategy string  `json:"strategy"`          // serial | random | pct
 	Burst    int     `json:"burst"`             // mean number of hot yields between forced parks (0 = never park at hot yields)
 	TickProb float64 `json:"tick_prob,omitempty"` // probability of advancing the fake clock by 3s at a decision
+	JumpProb float64 `json:"jump_prob,omitempty"` // probability, at a decision, of jumping the clock to the next sleeper's wake-up although other tasks are runnable
 	Choices  []int32 `json:"choices,omitempty"` // explicit (task id) prefix; -1 = use strategy
 	Bursts   []int32 `json:"bursts,omitempty"`
 	PCTDepth int     `json:"pct_depth,omitempty"`
